@@ -16,6 +16,14 @@
      (9 t)                             clear
      (10 a)                            reset of one record / container
      (11 t)                            reset of every live object of list t, in register order
+     (12 dst (r ...) shape)            registers r ... (records; 0 or more, repetitions allowed)
+                                       handed to `impl Sum for Record`: iter.sum::<Record<T>>();
+                                       `shape` = the iterator shape on the Rust side
+                                       (harness/src/shapes.rs; the model ignores it).  A sum over
+                                       records of two lists panics AFTER it has appended the
+                                       partial sums of the records before the foreign one: those
+                                       entries stay (visible in every later index / derivative
+                                       vector), the destination register is not written
    `form` only selects the ownership form on the Rust side (the model ignores it).
    Result: one outcome per step:  () unit | (0 num hist idx) record | (1 shape hist ((v i) ...))
    container | (2 ()) / (2 ((d ...))) derivatives | (3 (i ...)) the new indexes. *)
@@ -65,6 +73,8 @@ Definition dop15 (s : sx) : option (tm_op (R:=R)) :=
   | SL [SZ 9%Z; t] => match dnat t with Some t => Some (TClear t) | None => None end
   | SL [SZ 10%Z; a] => match dnat a with Some a => Some (TReset a) | None => None end
   | SL [SZ 11%Z; t] => match dnat t with Some t => Some (TResetAll t) | None => None end
+  | SL [SZ 12%Z; dst; rs; _] =>
+      match dnat dst, dlist dnat rs with Some dst, Some rs => Some (TSum dst rs) | _, _ => None end
   | _ => None
   end.
 
